@@ -1,6 +1,7 @@
 import TongoProofs.Lemmas.TlbSpec
 import TongoProofs.C03
 import TongoProofs.Lemmas.TlbBitsRefine
+import TongoProofs.Lemmas.HashmapSound
 import TongoGen.TlbTypes
 /-! # C04 — TL-B encodings are bit-exact with the TON schemas
 
@@ -311,6 +312,113 @@ theorem ext_message_layout (wc : Int) (addr : List UInt8) (body : Cell) (init : 
     ∃ g c, specChunk senv g Spec.Message (extMessageVal wc addr body init fee) = some c ∧
       b'.toCell = Cell.mk 0 0 c.1 c.2 :=
   impl_cell_eq_spec _ _ _ impl_eq_spec_Message fuel _ hd b' he
+
+/-! ## The dictionary part of the schema side
+
+`specDict` (the chunk `block.tlb` prescribes for a `HashmapE n X`) calls C05's `Hashmap.marshal` — the same function
+the implementation model uses — on the values as the SCHEMA serialises them. That this function is the schema and not
+merely "what the code does" is C05's content; `specDict_is_hashmap_tree` restates the schema side declaratively: the
+root it produces is the cell tree (`HTree.toCell`: hm_edge with its label, hmn_leaf value / hmn_fork left:^ right:^) of
+a VALID `Hashmap n X` (`HTree.Valid`: every label within the remaining key length, a leaf exactly where the key is
+exhausted) whose MEANING is the given entries in ascending key order — with no reference to the encoder's algorithm. -/
+
+/-- **specDict_is_hashmap_tree** -/
+theorem specDict_is_hashmap_tree (n : Nat) (kf vf : Val → Option Chunk) (v : Val) (c : Chunk)
+    (h : specDict n kf vf v = some c) (ks vs : List Val) (hp : dictParts v = some (ks, vs))
+    (hv : ∀ x ∈ vs, (vf x).isSome = true) (hlen : ks.length = vs.length) :
+    (ks = [] ∧ c = ([false], [])) ∨
+    ∃ (kbits : List Hashmap.Key) (kvs : List (Hashmap.Key × Val)) (t : Hashmap.HTree Val),
+      mapMOpt (fun kv => keyBits n (kf kv)) ks = some kbits ∧ zipKV kbits vs = some kvs ∧
+      t.Valid n ∧ t.meaning = Hashmap.sortKV kvs ∧ Hashmap.SortedKV t.meaning ∧
+      c = ([true], [t.toCell (fun x => (vf x).getD ([], [])) n]) := by
+  unfold specDict at h
+  rw [hp] at h
+  simp only at h
+  by_cases hemp : ks.isEmpty = true
+  · rw [if_pos hemp] at h
+    exact Or.inl ⟨by simpa using hemp, (Option.some.inj h).symm⟩
+  · rw [if_neg hemp] at h
+    right
+    cases hk : mapMOpt (fun kv => keyBits n (kf kv)) ks with
+    | none => rw [hk] at h; cases h
+    | some kbits =>
+    rw [hk] at h
+    simp only at h
+    cases hz : zipKV kbits vs with
+    | none => rw [hz] at h; cases h
+    | some kvs =>
+    rw [hz] at h
+    simp only at h
+    cases hm : Hashmap.marshal (specCodec vf) n kvs with
+    | err e => rw [hm] at h; cases h
+    | panic e => rw [hm] at h; cases h
+    | ok root =>
+    rw [hm] at h
+    simp only [Option.some.injEq] at h
+    -- widths of the keys: `keyBits` checks them
+    have hkw : ∀ kb ∈ kbits, kb.length = n := by
+      clear hm hz h hp hv hlen hemp
+      induction ks generalizing kbits with
+      | nil => simp only [mapMOpt, Option.some.injEq] at hk; subst hk; simp
+      | cons a as ih =>
+        simp only [mapMOpt] at hk
+        cases h1 : keyBits n (kf a) with
+        | none => simp [h1] at hk
+        | some b =>
+          cases h2 : mapMOpt (fun kv => keyBits n (kf kv)) as with
+          | none => simp [h1, h2] at hk
+          | some bs =>
+            simp only [h1, h2, Option.some.injEq] at hk
+            subst hk
+            intro kb hkb
+            rcases List.mem_cons.mp hkb with rfl | hkb
+            · unfold keyBits at h1
+              split at h1
+              · split at h1
+                · rename_i hc; cases h1; exact hc.1
+                · cases h1
+              · cases h1
+            · exact ih bs h2 kb hkb
+    have hkl : kbits.length = vs.length := by
+      have : kbits.length = ks.length := by
+        clear hm hz h hp hv hlen hemp hkw
+        induction ks generalizing kbits with
+        | nil => simp only [mapMOpt, Option.some.injEq] at hk; subst hk; rfl
+        | cons a as ih =>
+          simp only [mapMOpt] at hk
+          cases h1 : keyBits n (kf a) with
+          | none => simp [h1] at hk
+          | some b =>
+            cases h2 : mapMOpt (fun kv => keyBits n (kf kv)) as with
+            | none => simp [h1, h2] at hk
+            | some bs =>
+              simp only [h1, h2, Option.some.injEq] at hk
+              subst hk
+              simp [ih bs h2]
+      omega
+    obtain ⟨hz1, hz2⟩ := zipKV_spec kbits vs kvs hkl hz
+    have hw : ∀ kv ∈ kvs, kv.1.length = n := fun kv hkv => hkw kv.1 (by rw [← hz1]; exact List.mem_map_of_mem hkv)
+    have hne : kvs ≠ [] := by
+      intro h0; subst h0
+      simp only [List.map_nil] at hz1
+      have : ks.length = 0 := by rw [hlen, ← hkl, ← hz1]; rfl
+      exact hemp (by simpa using List.eq_nil_of_length_eq_zero this)
+    have hemp2 : kvs.isEmpty = false := by cases kvs <;> simp_all
+    simp only [Hashmap.marshal, hemp2, Bool.false_eq_true, if_false, Hashmap.maxKeyLen_eq n _ hne hw] at hm
+    have hp2 := Hashmap.sortKV_perm kvs
+    have hws : ∀ kv ∈ Hashmap.sortKV kvs, kv.1.length = n := fun kv hkv => hw kv (hp2.mem_iff.mp hkv)
+    have hs := Hashmap.encodeMap_ok_strict (specCodec vf) (n + 1) n _ root hws (Hashmap.sortKV_weak n _ hw) hm
+    obtain ⟨t, htv, htm, htc⟩ := Hashmap.encodeMap_ok_tree (specCodec vf) (fun x => (vf x).getD ([], [])) (n + 1) n _
+      root hws hs (by
+        intro kv hkv
+        have hmem : kv.2 ∈ vs := by rw [← hz2]; exact List.mem_map_of_mem (hp2.mem_iff.mp hkv)
+        have := hv kv.2 hmem
+        simp only [specCodec]
+        cases hvf : vf kv.2 with
+        | none => rw [hvf] at this; cases this
+        | some c' => simp) hm
+    refine ⟨kbits, kvs, t, rfl, hz, htv, htm, by rw [htm]; exact hs, ?_⟩
+    rw [← h, htc]
 
 /-- **reencode_own_output_message** (formerly `reencode_real`; from C03 `reencode_own_output`): a cell produced BY THE
 ENCODER decodes and re-encodes to the same cell. It says nothing about cells that come from the chain: that is
